@@ -425,6 +425,41 @@ def c10_state(l3, machine, sidx, alloc, L, stats, timeout_ms=30000):
                 if r:
                     w = witness(r[1]); w['next_call'] = 'end'
                     findings.append({'kind': 'c10-fail', 'what': 'FAIL is not absorbing', 'detail': '; '.join(r[0][:3]), **w})
+    # ... and so is a FAIL returned by end(): end() from this state, then a further feed of any byte / a further end()
+    if l3.eof:
+        FAILC = l3.codes.index('FAIL')
+        ex0 = l3.call1('end', l3.image(sidx, data, alloc), solver, list(inv), sx, max_steps=ms)
+        for o in ex0.paths:
+            if o.kind != 'RET':
+                continue
+            isfail = o.ret == FAILC if not isinstance(o.ret, int) else z3.BoolVal(o.ret == FAILC)
+            if z3.is_false(z3.simplify(isfail)):
+                continue
+            opc = list(o.pc) + [isfail]
+            m2 = o.mem.copy()
+            nb = z3.BitVec('next_0', 8)
+            l3.add_chunk(m2, 1, name='chunk', symbols=[nb])
+            ex = call_feed(l3, m2, 0, 1, solver, list(inv) + opc, sx, ms)
+            for p in ex.paths:
+                conds = []
+                if p.kind != 'RET':
+                    conds.append((f'feed after end() returned FAIL ends in {p.kind}', z3.BoolVal(False)))
+                else:
+                    conds.append(('feed after end() returned FAIL returns FAIL', p.ret == FAILC))
+                    conds.append(('no hook call after FAIL', z3.BoolVal(len(p.events) == 0)))
+                    conds += [(f'after FAIL: {x}', c) for x, c in mem_equal_conds(l3, o.mem, p.mem, tag='e')]
+                r = ask(conds, opc + list(p.pc), 'end-fail-absorbing')
+                if r:
+                    w = {'pre': stepcmp.model_pre(l3, r[1], data, sidx, alloc), 'bytes': [], 'calls': 'end, feed'}
+                    w['next_byte'] = r[1].eval(nb, model_completion=True).as_long()
+                    findings.append({'kind': 'c10-fail', 'what': 'FAIL returned by end() is not absorbing', 'detail': '; '.join(r[0][:3]), **w})
+            ex = l3.call1('end', o.mem.copy(), solver, list(inv) + opc, sx, max_steps=ms)
+            for p in ex.paths:
+                conds = [('end after end() returned FAIL returns FAIL', (p.ret == FAILC) if p.kind == 'RET' else z3.BoolVal(False))]
+                r = ask(conds, opc + list(p.pc), 'end-fail-absorbing-end')
+                if r:
+                    findings.append({'kind': 'c10-fail', 'what': 'FAIL returned by end() is not absorbing', 'detail': '; '.join(r[0][:3]),
+                                     'pre': stepcmp.model_pre(l3, r[1], data, sidx, alloc), 'bytes': [], 'calls': 'end, end', 'next_call': 'end'})
     d['nontrivial'].append('c10:' + key)
     if len(d['samples']) < 5:
         d['samples'].append({'program': getattr(l3, 'label', '?'), 'state': sidx, 'chunk_len': L, 'abstract_paths': len(apaths), 'c_outcomes': len(outs),
